@@ -74,9 +74,9 @@ class C02(C01):
             order = [k for k in sorted(st, key=lambda k: pos[k]) if k in sd]
             rt = [sum(st[k]) / len(st[k]) for k in order]
             rd = [sum(sd[k]) / len(sd[k]) for k in order]
-            at = sorted(range(len(order)), key=lambda i: rt[i])
-            ad = sorted(range(len(order)), key=lambda i: rd[i])
-            if at != ad:
+            # a strict inversion between two groups; exactly tied rates are ordered by numpy's (unstable)
+            # quicksort in the code and are accepted in any order
+            if any(rt[i] < rt[j] and rd[i] > rd[j] for i in range(len(order)) for j in range(len(order))):
                 return False, f"labels rank differently by target rate on train {rt} and dev {rd}"
         return True, ""
 
